@@ -1,0 +1,7 @@
+//go:build !verif
+
+package storage
+
+// verifPoint marks a crash point of the verification harness; without the build tag verif it
+// does nothing (see verif_on.go).
+func verifPoint(_ string) {}
